@@ -80,6 +80,7 @@ func NewCertSet(domain string) *CertSet {
 	leaf(CertUntrusted, 12, []string{domain}, nb, na, badCA, badKey, 102)
 	leaf(CertExpired, 13, []string{domain}, nb, time.Date(1999, 12, 31, 0, 0, 0, 0, time.UTC), goodCA, goodKey, 103)
 	leaf(CertAltName, 14, []string{cs.AltName}, nb, na, goodCA, goodKey, 104)
+	leaf(CertBoth, 15, []string{domain, cs.AltName}, nb, na, goodCA, goodKey, 105)
 	cs.chains[CertAbort] = cs.chains[CertGood]
 	return cs
 }
